@@ -39,9 +39,13 @@ def replay(chk, vecs, par=8):
         return [json.loads(x) for x in out.splitlines() if x.strip()]
     with ThreadPoolExecutor(max_workers=par) as ex:
         res = list(ex.map(one, chunks))
-    obs = []
-    for r in res:
-        obs += r
+    if any(len(r) != len(c) for r, c in zip(res, chunks)):
+        # a harness process stopped early (a render call that did not return): keep what was observed
+        return [o for r in res for o in r]
+    obs = [None] * len(vecs)
+    for c, r in enumerate(res):
+        for j, o in enumerate(r):
+            obs[c + j * par] = o
     return obs
 
 
